@@ -210,7 +210,7 @@ func remainderHolds(P *Program, vc *VC, fnName string, r *Result, kf KnownFindin
 		fmt.Fprintf(os.Stderr, "known finding %s: %v\n", kf.Obligation, ex.errs)
 		return false
 	}
-	dir := filepath.Join(outDir, sanitizeFile(vc2.fnName)+".remainder")
+	dir := uniquePath(outDir, sanitizeFile(vc2.fnName)+".remainder", "")
 	os.MkdirAll(dir, 0o755)
 	for _, o := range vc2.obls {
 		if o.Name == r.Obl.Name {
@@ -250,7 +250,7 @@ func writeReplay(P *Program, prop, fn string, vc *VC, r *Result, outDir string) 
 		confirmed = tryScalarReplay(P, vc, r, &rf)
 	}
 	rf.Replayed = confirmed
-	path := filepath.Join(dir, sanitizeFile(r.Obl.Name)+".json")
+	path := uniquePath(dir, sanitizeFile(r.Obl.Name), ".json")
 	var buf bytes.Buffer
 	enc := json.NewEncoder(&buf)
 	enc.SetEscapeHTML(false)
